@@ -2,7 +2,7 @@
    Directives in force: those of ExtrOcamlBasic, ExtrOcamlChar, ExtrOcamlString
    (listed in DESIGN.md section 6); nat/N/Z/positive stay inductive. *)
 From Coq Require Extraction ExtrOcamlBasic ExtrOcamlChar ExtrOcamlString.
-From CV Require Import Model.Base Model.Effector Model.RoleGraph Model.PathMatch Model.Expr Model.Enforce Model.Engine Model.SpecC01 Model.Cached Model.Csv Model.Ini Model.SpecC14 Model.SpecC15 Model.SpecC09 Model.SpecC12 Model.SpecC08 Model.SpecC19 Model.SpecC04 Model.SpecC05 Model.SpecC13 Model.SpecC07 Model.SpecC11 Model.SpecC18 Model.SpecC16 Model.RoleGraphM Model.SpecC03M.
+From CV Require Import Model.Base Model.Effector Model.RoleGraph Model.PathMatch Model.Expr Model.Enforce Model.Engine Model.SpecC01 Model.Cached Model.Csv Model.Ini Model.SpecC14 Model.SpecC15 Model.SpecC09 Model.SpecC12 Model.SpecC08 Model.SpecC19 Model.SpecC04 Model.SpecC05 Model.SpecC13 Model.SpecC07 Model.SpecC11 Model.SpecC18 Model.SpecC16 Model.RoleGraphM Model.SpecC03M Model.FileSave.
 Extraction Blacklist String List Char Bool Nat.
 Set Extraction KeepSingleton.
 Extraction "../extracted/model.ml"
@@ -11,6 +11,7 @@ Extraction "../extracted/model.ml"
   lstep lrun RoleGraph.answer c03_pred
   mrun_i manswer c03m_pred mf_supported
   enforce_with_ctx4 perm_ref_ctx4 CKCtx
+  save_new
   print_expr escape_assertion key_match key_get key_match2 key_get2 key_match3 key_get3 key_match4 key_match5
   regex_match_words render2 render3 grammar spec_km spec_km4 spec_km5 spec_get before_star is_prefix
   step ask new_enforcer reload_view count_us m_get_all
